@@ -13,6 +13,7 @@ mod tcp;
 mod pbuf;
 mod pollat;
 mod ring;
+mod slaac;
 mod util;
 
 fn main() {
@@ -69,6 +70,8 @@ fn run_world(world: &str, args: &util::Args) {
         "dns-random" => dns::random(&args),
         "dnsname-replay" => dns::name_replay(&args),
         "pollat-random" => pollat::random(&args),
+        "slaac-random" => slaac::random(&args),
+        "slaac-replay" => slaac::replay(&args),
         "tcp-pair" => tcp::pair(&args),
         "tcp-peer-replay" => tcp::peer_replay(&args),
         "tcp-peer-random" => tcp::peer_random(&args),
